@@ -187,11 +187,19 @@ func pathConds(root ast.Node, target ast.Node) []condPol {
 			continue
 		}
 		next := chain[i+1]
+		cond, flip := is.Cond, false
+		for {
+			u, isNot := ast.Unparen(cond).(*ast.UnaryExpr)
+			if !isNot || u.Op != token.NOT {
+				break
+			}
+			cond, flip = ast.Unparen(u.X), !flip
+		}
 		switch {
 		case next == ast.Node(is.Body):
-			out = append(out, condPol{is.Cond, true})
+			out = append(out, condPol{cond, !flip})
 		case is.Else != nil && next == ast.Node(is.Else):
-			out = append(out, condPol{is.Cond, false})
+			out = append(out, condPol{cond, flip})
 		}
 	}
 	return out
